@@ -260,6 +260,9 @@ func runC12(c c12Case) (bool, []string, error) {
 				touch("codec", op.Kind)
 			case "encodefile":
 				touch("registry", op.Kind)
+			case "readabort":
+				touch("pool", op.Kind)
+				touch("codec", op.Kind)
 			case "readfile":
 				touch("pool", op.Kind)
 				touch("registry", op.Kind)
@@ -413,6 +416,49 @@ func c12Run(g int, op c12Op, banks chan *avro.ResourceBank) error {
 		if i != len(f.abs) {
 			return fmt.Errorf("%d records read, %d written", i, len(f.abs))
 		}
+	case "readabort":
+		// the callback gives up at record k but keeps that record and its bank (the
+		// bank is the callback's to close, also when it returns an error); other
+		// goroutines keep decoding; the kept record is still what the file says
+		if len(f.abs) == 0 {
+			return nil
+		}
+		k := op.Arg % len(f.abs)
+		i := 0
+		var kept reflect.Value
+		var keptBank *avro.ResourceBank
+		err := avro.ReadFile(bytes.NewReader(f.file), reflect.New(f.typ).Elem().Interface(), func(val unsafe.Pointer, rb *avro.ResourceBank) error {
+			if i == k {
+				kept = reflect.New(f.typ).Elem()
+				kept.Set(reflect.NewAt(f.typ, val).Elem())
+				keptBank = rb
+				return errSentinel
+			}
+			i++
+			rb.Close()
+			return nil
+		})
+		if err != errSentinel {
+			return fmt.Errorf("ReadFile returned %v, want the callback's error", err)
+		}
+		for spin := 0; spin < 3; spin++ {
+			runtime.Gosched()
+			// decoding of our own in between: takes banks from the pool
+			var sink reflect.Value = reflect.New(f.typ)
+			rb := avro.NewReadBuf(f.bodies[k])
+			if err := f.codec.Read(rb, sink.UnsafePointer()); err != nil {
+				return fmt.Errorf("decode: %v", err)
+			}
+			if err := spec.Match(f.abs[k], spec.Abs(f.ts, false, kept), fmt.Sprintf("record[%d] kept after an aborted ReadFile", k)); err != nil {
+				return err
+			}
+			rb.ExtractResourceBank().Close()
+		}
+		select {
+		case banks <- keptBank:
+		default:
+			keptBank.Close()
+		}
 	case "closebanks":
 		for k := 0; k < 8; k++ {
 			select {
@@ -477,7 +523,7 @@ func c12Run(g int, op c12Op, banks chan *avro.ResourceBank) error {
 func drawC12(t *rapid.T) c12Case {
 	var c c12Case
 	n := gen.UniformRange(t, "goroutines", 2, 8)
-	kinds := []string{"schema", "codec", "register", "decode", "encode", "readfile", "closebanks", "time", "decode", "encode", "time", "readfile", "encodefile"}
+	kinds := []string{"schema", "codec", "register", "decode", "encode", "readfile", "closebanks", "time", "decode", "encode", "time", "readfile", "encodefile", "readabort"}
 	for g := 0; g < n; g++ {
 		var p []c12Op
 		m := gen.UniformRange(t, "nops", 5, 40)
